@@ -21,6 +21,7 @@ import (
 
 	"seehuhn.de/go/pdf"
 	"seehuhn.de/go/pdf/font"
+	"seehuhn.de/go/pdf/font/charcode"
 	"seehuhn.de/go/pdf/font/encoding"
 	"seehuhn.de/go/pdf/internal/stdmtx"
 )
@@ -105,4 +106,15 @@ func fontDescriptorIsCompatible(fd *font.Descriptor, stdInfo *stdmtx.FontData) b
 	}
 
 	return true
+}
+
+// codeKey identifies a decoded character code in the per-font cache of
+// extracted composite fonts.  charcode.Code packs the bytes little-endian
+// without their number, so an incomplete code <01> and the valid code <0100>
+// have the same value: the number of bytes consumed and the validity are part
+// of the key.
+type codeKey struct {
+	code  charcode.Code
+	n     int
+	valid bool
 }
